@@ -28,6 +28,8 @@ def run(tier, seed, t0):
     # little stack left in the calling context (threads with a 32 KiB stack; 16 KiB is the platform minimum)
     jobs.append(Job("smallstack-optim", "drv_c11", "optim", "spqlios-fma", ["--mode", "smallstack", "--stack_kib", 32, "--maxN", 2048, "--seed", seed + 6], meta={"leaks": False}))
     jobs.append(Job("smallstack-debug", "drv_c11", "debug", "nayuki-portable", ["--mode", "smallstack", "--stack_kib", 48, "--maxN", 1024, "--seed", seed + 6], meta={"leaks": False}))
+    jobs.append(Job("threads-optim", "drv_c11", "optim", "spqlios-fma", ["--mode", "threads", "--threads", 10, "--iters", 1500 if thorough else 200, "--maxN", 2048, "--seed", seed + 7], meta={"leaks": False}))
+    jobs.append(Job("threads-tsan", "drv_c11", "tsan", "nayuki-portable", ["--mode", "threads", "--threads", 4, "--iters", 30, "--maxN", 256, "--seed", seed + 8], tool="tsan", timeout=1800, meta={"leaks": False}))
     jobs.append(Job("shared-debug", "drv_c11", "debug", "nayuki-portable", ["--mode", "shared", "--threads", 4, "--iters", 120, "--seed", seed + 4]))
     jobs.append(Job("shared-tsan", "drv_c11", "tsan", "nayuki-portable", ["--mode", "shared", "--threads", 3, "--iters", 60, "--seed", seed + 5], tool="tsan", timeout=1800, meta={"leaks": False}))
     return vcheck.simple_run("C11", tier, seed, t0, jobs, "exploration", RULE,
